@@ -450,6 +450,25 @@ func genC17Context(t *rapid.T) *C17Context {
 		pos := rapid.IntRange(0, len(f.Tops)).Draw(t, "fpos")
 		f.Tops = append(f.Tops[:pos], append([]*Top{top}, f.Tops[pos:]...)...)
 	}
+	// the same text formatted twice with the same font and length but other numLines / cursorOverlapWidth:
+	// each statement is formatted with its own parameters
+	if rapid.IntRange(0, 3).Draw(t, "formatpair") == 0 {
+		lit := rapid.SampledFrom([]string{"Some longer text that needs wrapping when it is formatted for the box", "aaa bbb ccc ddd eee fff ggg hhh iii jjj kkk"}).Draw(t, "pairtext")
+		ln := fmt.Sprint(rapid.SampledFrom([]int{30, 40, 60}).Draw(t, "pairlen"))
+		mk := func(name string, extra ...*FParam) *Top {
+			v := &TextVal{Lit: &StrLit{Parts: []string{lit}}, Format: true, Params: append([]*FParam{{Val: `"1_latin_frlg"`}, {Val: ln}}, extra...)}
+			return &Top{K: "text", Text: &TextStmt{Name: name, Val: v}}
+		}
+		second := &FParam{Name: "numLines", Val: "3"}
+		if rapid.Bool().Draw(t, "pairoverlap") {
+			second = &FParam{Name: "cursorOverlapWidth", Val: "25"}
+		}
+		for i, top := range []*Top{mk("PairA", &FParam{Name: "numLines", Val: "2"}), mk("PairB", second)} {
+			_ = i
+			pos := rapid.IntRange(0, len(f.Tops)).Draw(t, "pairpos")
+			f.Tops = append(f.Tops[:pos], append([]*Top{top}, f.Tops[pos:]...)...)
+		}
+	}
 	return &C17Context{File: f}
 }
 
